@@ -63,6 +63,10 @@ EXHAUSTIVE = {'quick': False, 'thorough': True}
 UNREPAIRED = set()   # all seven repairs are applied in /repo (see known_findings.json, 'fixed')
 
 
+# coverage-guided tier (thorough only): atheris drives the same strategy and oracle through fuzz_one_input
+ATHERIS = {'thorough': {'seconds': 150, 'runs': 10000000, 'shards': 4, 'include': ['cell_type_mapper.utils']}}
+
+
 def budget(tier):
     return {'quick': 960, 'thorough': 16000}[tier]
 
